@@ -535,16 +535,10 @@ pub fn single_layer_entries() -> Vec<Entry> {
     v.push(e("TcpOptions::try_from_slice", |w, b| {
         let b = &b[..b.len().min(44)];
         res!(w, "TcpOptions::try_from_slice", TcpOptions::try_from_slice(b), |p| {
-            w.d("TcpOptions", &p);
             w.owned("TcpOptions.as_slice", p.as_slice());
-            let mut k = 0;
-            for it in p.elements_iter() {
-                w.d("TcpOptions.elem", it.map_err(|e| format!("{:?}", e)));
-                k += 1;
-                if k > 50 {
-                    break;
-                }
-            }
+            let max = p.as_slice().len() + 1;
+            w.iter("TcpOptions.elements_iter", p.elements_iter(), max, |w, nm, it| w.d(nm, it.map_err(|e| format!("{:?}", e))));
+            w.d("TcpOptions", &p);
         })
     }));
     v.push(e("Icmpv4Slice::from_slice", |w, b| res!(w, "Icmpv4Slice::from_slice", Icmpv4Slice::from_slice(b), |p| icmpv4(w, "Icmpv4Slice", &p))));
